@@ -294,10 +294,12 @@ class SimNet:
         return transport, protocol
 
     # ---- UDP ----
-    async def udp_endpoint(self, loop, protocol_factory, local_addr, remote_addr):
+    async def udp_endpoint(self, loop, protocol_factory, local_addr, remote_addr, preset_options=()):
         await asyncio.sleep(0)
         protocol = protocol_factory()
         transport = SimDatagramTransport(self, loop, protocol, local_addr)
+        for opt in preset_options:
+            transport.sock.options.append(tuple(opt))
         self.udp_transports = getattr(self, "udp_transports", [])
         self.udp_transports.append(transport)
         protocol.connection_made(transport)
